@@ -4,6 +4,7 @@ import GFS.Model.Front
 import GFS.Model.Uploader
 import GFS.Model.Upload
 import GFS.Model.UploadPart
+import GFS.Model.FrontMp
 import GFS.Spec.Multipart
 import GFS.Spec.S3
 import GFS.Spec.Listing
@@ -312,7 +313,9 @@ def stepState0 (st : DState) (toks : List String) : Option (DState × Out × Str
   | ["mpinit", b, k, md] =>
     (match Front.ensureBucket st.cfg st.mem (fromHex b) with
      | (m, .ok _) =>
-       let (u, id) := st.upl.create (fromHex b) (fromHex k) (parseMeta md)
+       let (u, id) : Upl × Nat := match Front.initiateUpload st.cfg ⟨st.mem, st.upl⟩ (fromHex b) (fromHex k) (parseMeta md) with
+         | (s', .ok i) => (s'.upl, i)
+         | (s', _) => (s'.upl, 0)
        some ({ st with mem := m, upl := u, mspec := st.mspec ++ [⟨id, fromHex b, fromHex k, []⟩] }, Out.ok, s!"upload {id}", "-")
      | (m, .err c) => some ({ st with mem := m }, Out.err c, s!"err {c.name}", "-")
      | (m, .panic _) => some ({ st with mem := m }, Out.ok, "panic", "-"))
@@ -342,7 +345,8 @@ def stepState0 (st : DState) (toks : List String) : Option (DState × Out × Str
     let bodyB := fromHex body
     let clv : Option Bytes := if cl == "~" then none else some (fromHex cl)
     let rq : PartReq := ⟨parseInt64 (fromHex pn), clv, mh, bodyB⟩
-    let (u, r) := Front.uploadPartReq md5 st.ucfg st.upl (fromHex b) (fromHex k) (parseNat id) rq
+    let (u, r) : Upl × Res Bytes := match Front.uploadPartSrv md5 st.ucfg ⟨st.mem, st.upl⟩ (fromHex b) (fromHex k) (parseNat id) rq with
+      | (s', r') => (s'.upl, r')
     -- specification (C08): refused when the digest does not match the bytes, the digest header is
     -- malformed or empty (integrity on), or the length differs from the declared one; otherwise a
     -- part sent to a pending upload is acknowledged with the MD5 of its bytes
@@ -374,7 +378,8 @@ def stepState0 (st : DState) (toks : List String) : Option (DState × Out × Str
       (listed.splitOn ",").map fun e => match e.splitOn ":" with
         | [n, t] => (parseInt n, fromHex t)
         | _ => (0, [])
-    let (u, m, r) := st.upl.complete md5 st.mem (fromHex b) (fromHex k) (parseNat id) ls
+    let (u, m, r) : Upl × Mem × Res (Option Nat × Bytes) := match Front.completeUpload md5 ⟨st.mem, st.upl⟩ (fromHex b) (fromHex k) (parseNat id) ls with
+      | (s', r') => (s'.upl, s'.mem, r')
     -- specification: accepted iff ascending, all parts uploaded, ETags of the most recent uploads
     let su := st.mspec.find? (fun s => s.id == parseNat id && s.bucket == fromHex b && s.key == fromHex k)
     let verdict := match su with
@@ -395,7 +400,8 @@ def stepState0 (st : DState) (toks : List String) : Option (DState × Out × Str
      | .err c => some ({ st with upl := u, mem := m, spec := spec', mspec := mspec' }, Out.err c, s!"err {c.name}", sp)
      | .panic _ => some ({ st with upl := u, mem := m }, Out.ok, "panic", sp))
   | ["mpabort", b, k, id] =>
-    let (u, r) := st.upl.abort (fromHex b) (fromHex k) (parseNat id)
+    let (u, r) : Upl × Res Unit := match Front.abortUpload ⟨st.mem, st.upl⟩ (fromHex b) (fromHex k) (parseNat id) with
+      | (s', r') => (s'.upl, r')
     let known := st.mspec.any (fun s => s.id == parseNat id && s.bucket == fromHex b && s.key == fromHex k)
     (match r with
      | .ok _ => some ({ st with upl := u, mspec := st.mspec.filter (fun x => !(x.id == parseNat id)) }, Out.ok, "ok", if known then "ok" else "err NoSuchUpload")
@@ -404,7 +410,7 @@ def stepState0 (st : DState) (toks : List String) : Option (DState × Out × Str
   | ["mpparts", b, k, id, marker, limit] =>
     (match Front.ensureBucket st.cfg st.mem (fromHex b) with
      | (m, .ok _) =>
-       let r := st.upl.listParts (fromHex b) (fromHex k) (parseNat id) (parseNat marker) (parseInt limit)
+       let r := (Front.listPartsReq st.cfg ⟨st.mem, st.upl⟩ (fromHex b) (fromHex k) (parseNat id) (parseNat marker) (parseInt limit)).2
        -- specification: the held parts with their true numbers, ascending
        let sp := match st.mspec.find? (fun s => s.id == parseNat id && s.bucket == fromHex b && s.key == fromHex k) with
          | none => "err NoSuchUpload"
@@ -426,7 +432,7 @@ def stepState0 (st : DState) (toks : List String) : Option (DState × Out × Str
     (match Front.ensureBucket st.cfg st.mem (fromHex b) with
      | (m, .ok _) =>
        let pr := parsePrefix hasP pfx hasD d
-       let r := st.upl.listUploads (fromHex b) pr (fromHex km) (parseOptNat im) (parseInt limit)
+       let r := (Front.listUploadsReq st.cfg ⟨st.mem, st.upl⟩ (fromHex b) pr (fromHex km) (parseOptNat im) (parseInt limit)).2
        -- specification: pending uploads of the bucket matching the prefix, by key then initiation
        let pend := (st.mspec.filter (fun s => s.bucket == fromHex b)).toArray.qsort
          (fun a c => Bytes.lt a.key c.key || (a.key == c.key && a.id < c.id))
